@@ -18,6 +18,7 @@ def jobs(ctx):
     js = []
     for sc in scenarios(ctx).values():
         js += e3.make_jobs(ctx, sc)
+    js.append(e3.smoke_job(ctx, scenarios(ctx)['mu_w_r_R3']))
     return js
 
 
